@@ -154,14 +154,20 @@ def finish(prop, tier, seed, level, t0, coverage, assumptions, candidates, harne
     confirmed, known_hit, not_repro = [], [], []
     seen = set()
     validated = 0
+    todo = []
     for cnd in candidates:
         k = cnd['key']
         if k in seen:
             continue
         seen.add(k)
         src = make_replay(cnd)
-        path = write_replay(prop, k, src)
-        rc, out = run_replay(path)
+        todo.append((cnd, write_replay(prop, k, src)))
+    # every candidate (known or not) is replayed on the uninstrumented code; the replays are independent processes
+    from concurrent.futures import ThreadPoolExecutor
+    with ThreadPoolExecutor(max_workers=min(16, os.cpu_count() or 1)) as ex:
+        outcomes = list(ex.map(lambda t: run_replay(t[1]), todo))
+    for (cnd, path), (rc, out) in zip(todo, outcomes):
+        k = cnd['key']
         validated += 1
         cnd['replay'] = path
         if rc == 1:
@@ -184,6 +190,7 @@ def finish(prop, tier, seed, level, t0, coverage, assumptions, candidates, harne
     for h in harness_errors:
         print('HARNESS-ERROR: %s' % h)
     coverage = dict(coverage)
+    coverage['repo_path'] = REPO
     coverage['traces_validated_against_impl'] = coverage.get('traces_validated_against_impl', 0) + validated
     coverage['disagreements_checked'] = coverage.get('disagreements_checked', 0) + validated
     coverage['inconclusive'] = inconclusive[:50]
